@@ -439,8 +439,7 @@ pcgstrf_MemInit(int_t n, int_t annz, superlumt_options_t *superlumt_options,
 int_t
 pcgstrf_WorkInit(int_t n, int_t panel_size, int_t **iworkptr, complex **dworkptr)
 {
-    int_t  isize, dsize, extra;
-    complex *old_ptr;
+    int_t  isize, dsize;
     int_t    maxsuper = sp_ienv(3),
            rowblk   = sp_ienv(4);
 
@@ -470,28 +469,12 @@ pcgstrf_WorkInit(int_t n, int_t panel_size, int_t **iworkptr, complex **dworkptr
     if ( whichspace == SYSTEM )
 	*dworkptr = (complex *) SUPERLU_MALLOC((size_t) dsize);
     else {
-	    *dworkptr = (complex *) cuser_malloc(dsize, TAIL);
-	    if ( NotDoubleAlign(*dworkptr) ) {
-	        old_ptr = *dworkptr;
+	    /* Ask for one extra double so that the block can be aligned inside
+	       itself: the stack pointers must not be touched after the
+	       allocation, another thread may have allocated right below. */
+	    *dworkptr = (complex *) cuser_malloc(dsize + sizeof(double), TAIL);
+	    if ( *dworkptr && NotDoubleAlign(*dworkptr) )
 	        *dworkptr = (complex*) DoubleAlign(*dworkptr);
-	        *dworkptr = (complex*) ((double*)*dworkptr - 1);
-	        extra = (char*)old_ptr - (char*)*dworkptr;
-#if ( DEBUGlevel>=1 )
-	        printf("pcgstrf_WorkInit: not aligned, extra" IFMT "\n", extra);
-#endif	    
-#if ( MACH==PTHREAD ) /* Use pthread ... */
-        pthread_mutex_lock( &stack.lock );
-#elif ( MACH==OPENMP ) /* Use openMP ... */
-#pragma omp critical ( STACK_LOCK )
-#endif
-              {
-	        stack.top2 -= extra;
-	        stack.used += extra;
-	      }
-#if ( MACH==PTHREAD ) /* Use pthread ... */
-        pthread_mutex_unlock( &stack.lock );
-#endif
-	    }
     } /* else */
     if ( ! *dworkptr ) {
 	printf("malloc fails for local dworkptr[] ... dsize " IFMT "\n", dsize);
